@@ -138,18 +138,16 @@ Section Commit.
 
   Lemma elect_core n i w vl t k :
     inv2 n -> inv3a n ->
-    role (nodes n i) = Candidate -> lead n (term (nodes n i)) = None ->
+    role (nodes n i) = Candidate -> last_term (log (nodes n i)) < term (nodes n i) ->
     In (Vote (term (nodes n i)) w i vl) (msgs n) ->
     t < term (nodes n i) -> 1 <= k -> acked n t w k -> term_at (llog n t) k = t ->
     (agree k (log (nodes n i)) (llog n t) /\ k <= length (log (nodes n i))) \/
-    blamed n t k (term (nodes n i) - 1).
+    blamed n t k (term (nodes n i)).
   Proof.
-    intros H2 H3a Hrole Hnone Hvote Hlt Hk Hack Hterm.
+    intros H2 H3a Hrole HUT Hvote Hlt Hk Hack Hterm.
     set (L := log (nodes n i)) in *. set (T0 := term (nodes n i)) in *.
     pose proof (acked_len n t w k (i_ack_le n H3a) Hack) as Hklen.
-    destruct (i_vote_pair n H3a T0 w i vl t k Hvote Hack Hlt) as [Hag|Hb].
-    2:{ right. destruct Hb as (U & HU & HlU & Hna). exists U. split; [|split; assumption].
-        assert (U <> T0) by (intros ->; contradiction). lia. }
+    destruct (i_vote_pair n H3a T0 w i vl t k Hvote Hack Hlt) as [Hag|Hb]; [|now right].
     assert (Hkvl : k <= length vl).
     { apply agree_sym in Hag. eapply agree_len; eauto. }
     assert (Htvl : term_at vl k = t).
@@ -175,14 +173,6 @@ Section Commit.
     { apply term_at_in_range. fold (last_term L). fold U. lia. }
     pose proof (i_log_ok n H2 i (length L) HLr) as HagL. fold L in HagL.
     fold (last_term L) in HagL. fold U in HagL.
-    assert (HUT : U < T0).
-    { assert (U <= T0).
-      { destruct (term_at_In L (length L) HLr) as (e & He & Hte).
-        pose proof (i_log_terms n H2 i e He). unfold U, last_term. rewrite Hte. fold T0 in H. lia. }
-      assert (U <> T0).
-      { intros E. rewrite E in HagL. destruct (i_lead_none n H2 T0 Hnone) as (El & _).
-        rewrite El in HagL. apply agree_len in HagL; simpl in *; lia. }
-      lia. }
     destruct HU as [HltU|(HeqU & Hlen)].
     - assert (HlU : lead n U <> None).
       { intros E. destruct (i_lead_none n H2 U E) as (El & _).
@@ -212,6 +202,24 @@ Section Commit.
       { eapply agree_trans; [eapply agree_le; [exact HagL | exact Hlen]|]. now apply agree_sym. }
       split; [|lia].
       eapply agree_trans; [eapply agree_le; [exact HLv | exact Hkvl]|]. exact Hag.
+  Qed.
+
+  (* a node in a term without leader has no entry of that term *)
+  Lemma no_leader_last_term n i :
+    inv2 n -> 1 <= term (nodes n i) -> lead n (term (nodes n i)) = None ->
+    last_term (log (nodes n i)) < term (nodes n i).
+  Proof.
+    intros H2 H1 Hnone. set (L := log (nodes n i)). set (T0 := term (nodes n i)) in *.
+    destruct (Nat.eq_dec (last_term L) 0) as [E|E]; [lia|].
+    assert (HLr : 1 <= length L <= length L) by (apply term_at_in_range; exact E).
+    pose proof (i_log_ok n H2 i (length L) HLr) as HagL. fold L in HagL.
+    fold (last_term L) in HagL.
+    destruct (term_at_In L (length L) HLr) as (e & He & Hte).
+    pose proof (i_log_terms n H2 i e He) as Hle. fold T0 in Hle.
+    unfold last_term in *. rewrite Hte in *.
+    destruct (Nat.eq_dec (eterm e) T0) as [E0|]; [|lia]. exfalso.
+    rewrite E0 in HagL. destruct (i_lead_none n H2 T0 Hnone) as (El & _).
+    rewrite El in HagL. apply agree_len in HagL; simpl in *; lia.
   Qed.
 
   (* ---- preservation: the quorum-free part ---- *)
@@ -497,11 +505,13 @@ Section Commit.
     2:{ pose proof (i_vote_le n H1 _ _ _ _ Hv). lia. }
     assert (Hack : acked n t w k) by (exists ldr, m; auto).
     pose proof (acked_len n t w k (i_ack_le n H3a) Hack) as Hklen.
-    destruct (elect_core n i w vl t k H2 H3a H Hl Hv Hlt Hk Hack Hterm) as [(Hag & HkL)|Hb].
+    assert (HUT : last_term (log (nodes n i)) < term (nodes n i)).
+    { apply no_leader_last_term; auto. apply (i_role_term n H1). congruence. }
+    destruct (elect_core n i w vl t k H2 H3a H HUT Hv Hlt Hk Hack Hterm) as [(Hag & HkL)|Hb].
     - left. now apply agree_ext_l.
     - right. destruct Hb as (U & HU & HlU & Hna).
-      exists U. split; [exact HU|]. cbn [lead llog0 llog].
-      assert (HneU : U <> term (nodes n i)) by lia.
+      assert (HneU : U <> term (nodes n i)) by (intros ->; contradiction).
+      exists U. split; [lia|]. cbn [lead llog0 llog].
       rewrite !(updg_neq _ _ _ _ HneU), (updg_neq _ _ _ _ Hne). split; assumption.
   Qed.
 
